@@ -65,6 +65,11 @@ func (h *H) Gen(rng *rand.Rand, tier, prop string) core.Cfg {
 	for i := 0; i < nt; i++ {
 		c.Topics = append(c.Topics, all[perm[i]])
 	}
+	if core.Chance(rng, 0.15) {
+		// a topic listed twice (a configuration slip the plugin tolerates)
+		at := rng.IntN(len(c.Topics)) + 1
+		c.Topics = append(c.Topics[:at], append([]string{c.Topics[0]}, c.Topics[at:]...)...)
+	}
 	partChoices := []int32{0, 1, 7, 65535}
 	type tpk struct {
 		t int
@@ -74,6 +79,15 @@ func (h *H) Gen(rng *rand.Rand, tier, prop string) core.Cfg {
 	epoch := map[tpk]int32{}
 	var tps []tpk
 	for t := range c.Topics {
+		dup := false
+		for u := 0; u < t; u++ {
+			if c.Topics[u] == c.Topics[t] {
+				dup = true
+			}
+		}
+		if dup {
+			continue // the same topic listed twice is one topic on the broker
+		}
 		np := core.Between(rng, 1, 2)
 		pp := rng.Perm(len(partChoices))
 		for i := 0; i < np; i++ {
